@@ -526,3 +526,49 @@ Fixpoint mism_from (i : nat) (cs : list case) : list (nat * nat) :=
 Definition mismatches (cs : list case) := mism_from 0 cs.
 
 End Stmt.
+
+(* ================================================================== the TEXT stream (Corr/C05Text.v) *)
+(* Module Text extends Module Stmt's cases by one kind; the harness' case files import it last
+   (`Import C05.Vec. Import C05.Stmt. Import C05.Text.`).
+   CTxt  an aliased statement text, the same text with the definitions written out, a store, a
+          batch size and the implementation's rows for both texts in both iteration modes; the
+          text twin of Model/PipelineS.v on both texts and Model/AliasText.expand_stmt through the
+          twin.  Codes: Corr/C05Text.v (1 twin differs, 2 aliased rows differ from expanded rows in
+          the implementation, 3 expand_stmt through the twin differs from the aliased text through
+          the twin, 99 outside the model). *)
+From KV Require Corr.C05Text.
+
+Module Text.
+Local Open Scope nat_scope.
+Local Open Scope list_scope.
+
+Definition stmt_case := Stmt.case.
+
+Inductive case :=
+  | CS (c : stmt_case)
+  | CTxt (t : C05Text.tcase).
+
+Definition COld (c : Vec.old_case) : case := CS (Stmt.COld c).
+Definition CSeq names fields wh chunks obs_on obs_off : case := CS (Stmt.CSeq names fields wh chunks obs_on obs_off).
+Definition CDrain names fields wh B slots obs_on obs_off : case := CS (Stmt.CDrain names fields wh B slots obs_on obs_off).
+Definition CVec names fields wh B slots seqs obs_on obs_off : case := CS (Stmt.CVec names fields wh B slots seqs obs_on obs_off).
+Definition CStmt B names fields wh group keys args aggr types order limit sh slots ron roff bon boff : case :=
+  CS (Stmt.CStmt B names fields wh group keys args aggr types order limit sh slots ron roff bon boff).
+
+Definition check_case (c : case) : nat :=
+  match c with
+  | CS c' => Stmt.check_case c'
+  | CTxt t => C05Text.check_text t
+  end.
+
+Fixpoint mism_from (i : nat) (cs : list case) : list (nat * nat) :=
+  match cs with
+  | [] => []
+  | c :: cs' => match check_case c with
+                | 0 => mism_from (S i) cs'
+                | k => (i, k) :: mism_from (S i) cs'
+                end
+  end.
+Definition mismatches (cs : list case) := mism_from 0 cs.
+
+End Text.
